@@ -101,6 +101,7 @@ StrOp(op, l, r, st) ==
   ELSE IF op = "!=" THEN Ok(B(l.s # r.s), st)
   ELSE IF op = "~=" THEN
          (IF AllOrdered(r.s) THEN Ok(B(Contains(l.s, r.s)), st)
+          ELSE IF DotPattern(r.s) /\ AllOrdered(l.s) THEN Ok(B(MatchesDots(l.s, r.s)), st)
           ELSE IF r.s # <<>> /\ Head(r.s) = "^" /\ AllOrdered(Tail(r.s)) THEN Ok(B(IsPrefixOf(Tail(r.s), l.s)), st)
           ELSE Unspec(st))
   ELSE IF ~(AllOrdered(l.s) /\ AllOrdered(r.s)) THEN Unspec(st)
@@ -122,10 +123,10 @@ BinValues(op, l, r, st) ==
          (CASE op = "==" -> Ok(B(l.b = r.b), st) [] op = "!=" -> Ok(B(l.b # r.b), st)
             [] op = "+" -> Unspec(st) [] OTHER -> Err(st))
     [] l.t = "bool" -> IF op \in {"==", "!=", "+"} THEN Unspec(st) ELSE Err(st)
-    \* array + x: the array with x appended as ONE element -- an opaque value that prints its elements; anything else
-    \* done with it is not specified
+    \* array + x: a NEW array, the elements of the left operand and x as ONE more element (fixes 63dffb0, c9f6c0a: the result is
+    \* an ordinary array that shares nothing with its operand)
     \* (a typed Go slice accepts only values of its element type: not specified here)
-    [] l.t = "arr" -> IF op # "+" THEN Err(st) ELSE IF "go" \in DOMAIN l THEN Unspec(st) ELSE Ok([t |-> "arrx", xs |-> Append(l.xs, r)], st)
+    [] l.t = "arr" -> IF op # "+" THEN Err(st) ELSE IF "go" \in DOMAIN l THEN Unspec(st) ELSE Ok(A(Append(l.xs, r)), st)
     [] l.t \in {"chunks", "perm", "html", "opq", "arrx"} \/ r.t \in {"chunks", "perm", "opq", "arrx"} -> Unspec(st)
     [] OTHER -> IF op \in {"==", "!="} /\ l.t # r.t /\ l.t \in {"int", "flt"} /\ r.t \in {"str", "bool", "int", "flt"}
                 THEN (IF {l.t, r.t} = {"int", "flt"} THEN Err(st) ELSE Unspec(st))
